@@ -642,6 +642,42 @@ def oracle_flux(rep, rng, n):
 
 # ------------------------------------------------------------------------------------------
 
+def sequence_stream(rep, rng, quick):
+    """integrated observables set and remove a temporary harmonic index / momentum transfer on the caller's point:
+    a harmonic observable evaluated on the SAME point afterwards must still be the Fourier coefficient it was before
+    (bundled points carrying FTn = 0 are the delicate ones)"""
+    import gepard as g
+    from gepard import fits
+    cand = [p for k in sorted(g.dset) for p in g.dset[k]
+            if p.get('process') in ('ep2epgamma', 'en2engamma') and 'FTn' in p and 'phi' not in p and 't' in p]
+    zero = [p for p in cand if p['FTn'] == 0]
+    pool = rng.sample(zero, min(len(zero), 5 if quick else 40)) + rng.sample(cand, min(len(cand), 3 if quick else 40))
+    th = fits.th_KM15
+    for p in pool:
+        q = p.copy()                       # work on a copy: the bundled point itself stays as loaded
+        ref_pt = p.copy()
+        try:
+            before = float(th.XUU(ref_pt))
+        except Exception as e:
+            before = 'EXC:' + type(e).__name__
+        steps = []
+        try:
+            th.XSintphi(q)
+            steps.append('XSintphi')
+            if rng.random() < 0.5:
+                th.XSintphi(q)
+                steps.append('XSintphi')
+            after = float(th.XUU(q))
+        except Exception as e:
+            after = 'EXC:' + type(e).__name__
+        rep.case('sequence', (p.get('id'), p.get('FTn'), id(p)), sample=dict(dataset=p.get('id'), FTn=p.get('FTn'), steps=steps) if p is pool[0] else None)
+        if after != before:
+            rep.violation('sequence/XSintphi-then-XUU/FTn=%s' % p.get('FTn'),
+                          'XUU of a point of dataset %s with FTn=%r is %r, but after %s on the same point it is %r'
+                          % (p.get('id'), p.get('FTn'), before, '+'.join(steps) or 'XSintphi', after),
+                          dict(dataset=p.get('id'), FTn=p.get('FTn'), before=before, after=after))
+
+
 def run(rep):
     import warnings
     warnings.simplefilter('ignore')
@@ -670,6 +706,7 @@ def run(rep):
     oracle_B(rep, rng, (80 if quick else 1500) * (2 if disagree else 1))
     oracle_xgamma(rep, rng, quick)
     oracle_flux(rep, rng, 25 if quick else 1000)
+    sequence_stream(rep, rng, quick)
 
     for kind, key, code, model, info in C.broken[:5]:
         if not rep.violations:
